@@ -3,7 +3,6 @@
     3.6e-13 |L| in z when the series branch is taken; (e) R56 = d tau'/d delta at the origin = the linear map's R56. *)
 From Coq Require Import Reals Lra Psatz.
 From Coquelicot Require Import Coquelicot.
-From Interval Require Import Tactic.
 From Cheetah Require Import Base.Mat Optics.Maps Bmadx.Coords Bmadx.CoordsProofs Bmadx.DriftX Bmadx.DriftXProofs Bmadx.DriftXJac Bmadx.Tdc
   Bmadx.QuadX Bmadx.QuadXProofs.
 Open Scope R_scope.
@@ -18,26 +17,53 @@ Proof.
   intros Hb Hpz. cbv zeta.
   set (g2 := 1 - b). set (u := 2 * pz + pz * pz).
   set (s := sqrt (1 + b * u)).
-  set (S := pz * (1 - 3 * (pz * b) / 2 + pz * pz * b * (2 * b - g2 / 2)) * g2).
-  assert (Hrad : 79/100 <= 1 + b * u) by (unfold u; interval).
+  set (w := 1 - 3 * (pz * b) / 2 + pz * pz * b * (2 * b - g2 / 2)).
+  set (S := pz * w * g2).
+  assert (Hg2 : 0 <= g2 <= 1) by (unfold g2; lra).
+  assert (Hu : -1/5 <= u <= 21/100) by (unfold u; nra).
+  assert (Hbu : -1/5 <= b * u <= 21/100) by nra.
+  assert (Hrad : 79/100 <= 1 + b * u) by lra.
   assert (Hs2 : s * s = 1 + b * u) by (unfold s; apply sqrt_sqrt; lra).
-  assert (Hs : 22/25 <= s) by (unfold s, u; interval).
-  assert (HS : 17/20 <= 1 + S) by (unfold S, g2; interval).
-  set (q := (25*b^4*pz^4 + 50*b^4*pz^3 - 35*b^3*pz^4 - 100*b^3*pz^3 - 35*b^3*pz^2 + 11*b^2*pz^4 + 58*b^2*pz^3 + 66*b^2*pz^2
-             + 28*b^2*pz - b*pz^4 - 8*b*pz^3 - 34*b*pz^2 - 62*b*pz - 35*b + 3*pz^2 + 18*pz + 15) / 4).
-  assert (Hq : -(56/10) <= q <= 56/10) by (unfold q; split; interval with (i_bisect pz, i_bisect b, i_depth 30)).
+  assert (Hs0 : 0 <= s) by (unfold s; apply sqrt_pos).
+  assert (Hs : 22/25 <= s) by nra.
+  assert (Hpb : -1/10 <= pz * b <= 1/10) by nra.
+  assert (Hp2 : 0 <= pz * pz <= 1/100) by nra.
+  assert (Hp2b : 0 <= pz * pz * b <= 1/100) by nra.
+  assert (Hc : -1/2 <= 2 * b - g2 / 2 <= 2) by (unfold g2; lra).
+  assert (Hw : 4/5 <= w <= 6/5) by (unfold w; nra).
+  assert (Hpw : -3/25 <= pz * w <= 3/25) by nra.
+  assert (HS : 17/20 <= 1 + S) by (unfold S; nra).
+  (* q = q0 + pz q1 + pz^2 q2 + pz^3 q3 + pz^4 q4, all divided by 4 *)
+  set (q0 := 15 - 35 * b). set (q1 := 28*b^2 - 62*b + 18). set (q2 := -35*b^3 + 66*b^2 - 34*b + 3).
+  set (q3 := 50*b^4 - 100*b^3 + 58*b^2 - 8*b). set (q4 := 25*b^4 - 35*b^3 + 11*b^2 - b).
+  set (q := (q0 + pz * q1 + pz * pz * q2 + pz * pz * pz * q3 + pz * pz * pz * pz * q4) / 4).
+  assert (B0 : -20 <= q0 <= 15) by (unfold q0; lra).
+  assert (Hb2 : 0 <= b * b <= 1) by nra.
+  assert (Hb3 : 0 <= b * b * b <= 1) by nra.
+  assert (Hb4 : 0 <= b * b * b * b <= 1) by nra.
+  assert (B1 : -16 <= q1 <= 18) by (unfold q1; nra).
+  assert (B2 : -70 <= q2 <= 70) by (unfold q2; nra).
+  assert (B3 : -110 <= q3 <= 110) by (unfold q3; nra).
+  assert (B4 : -40 <= q4 <= 40) by (unfold q4; nra).
+  assert (T1 : -18/10 <= pz * q1 <= 18/10) by nra.
+  assert (T2 : -7/10 <= pz * pz * q2 <= 7/10) by nra.
+  assert (Hp3 : -1/1000 <= pz * pz * pz <= 1/1000) by nra.
+  assert (T3 : -11/100 <= pz * pz * pz * q3 <= 11/100) by nra.
+  assert (Hp4 : 0 <= pz * pz * pz * pz <= 1/10000) by nra.
+  assert (T4 : -4/1000 <= pz * pz * pz * pz * q4 <= 4/1000) by nra.
+  assert (Hq : -(57/10) <= q <= 57/10) by (unfold q; lra).
   set (den := s * ((1 + pz) + (1 + S) * s)).
   assert (Hden : 145/100 <= den) by (unfold den; nra).
   assert (E : (1 + pz) / s - 1 - S = g2 * (b * b) * (pz * pz * pz * pz) * (q / den)).
   { assert (N : (1 + pz) * (1 + pz) - (1 + S) * (1 + S) * (s * s) = g2 * (b * b) * (pz * pz * pz * pz) * q).
-    { rewrite Hs2. unfold S, g2, u, q. field. }
+    { rewrite Hs2. unfold S, w, g2, u, q, q0, q1, q2, q3, q4. field. }
     replace ((1 + pz) / s - 1 - S) with (((1 + pz) * (1 + pz) - (1 + S) * (1 + S) * (s * s)) / den).
     - rewrite N. unfold Rdiv. ring.
     - unfold den. field. split; nra. }
   assert (Ht : -4 <= q / den <= 4).
   { split; apply Rmult_le_reg_r with den; try lra; replace (q / den * den) with q by (field; lra); nra. }
   assert (HA : 0 <= g2 * (b * b) * (pz * pz * pz * pz)).
-  { unfold g2. apply Rmult_le_pos; [apply Rmult_le_pos; nra|]. replace (pz*pz*pz*pz) with ((pz*pz)*(pz*pz)) by ring. nra. }
+  { apply Rmult_le_pos; [apply Rmult_le_pos; lra|lra]. }
   rewrite E. apply Rabs_le. split; nra.
 Qed.
 
